@@ -172,6 +172,7 @@ def run(ck):
     ck.ob("R3", "IRCFG.add_irblock:register", ok, m.where(fn), "the block is not registered under its location")
     fn = m.func("IRCFG._extract_dst")
     _extract_dst_rules(ck, m, fn)
+    _trackback_rules(ck, m, m.func("IRCFG.dst_trackback"))
 
 
 def _extract_dst_rules(ck, m, fn):
@@ -371,3 +372,66 @@ def _width_rules(ck):
             ck.ob("R5", "%s:%s:%s" % (arch, q, text[:50]), False, mm.mod.where(node),
                   "%s have widths %d and %d in `%s`: the expression constructor raises, so the instructions reaching this path are neither "
                   "lifted nor reported as unsupported" % (what, wa, wb, text))
+
+
+def _trackback_rules(ck, m, fn):
+    """Backward step of the destination tracking: for every assignment block, walked from the last one, the identifiers handed back by
+    _extract_dst become the next worklist - an identifier the block assigns is replaced by its source, the others are kept:
+           todo' = { blk[d] if d in blk else d  :  d in out }
+    Accepted spellings: one set comprehension / set(generator) with that conditional element, or the loop that collects blk[d] for the
+    assigned ones and then adds the unassigned rest (out - found / an else arm)."""
+    from sa.astutil import Resolver, added_elements
+    res = Resolver(fn)
+    loops = [n for n in walk_body(fn) if isinstance(n, ast.For) and isinstance(n.iter, ast.Call) and norm(n.iter.func) == "reversed"]
+    ck.need(loops, "IRCFG.dst_trackback: loop over the reversed assignment blocks not found")
+    lp = loops[0]
+    blk = norm(lp.target)
+    calls = [st for st in lp.body if isinstance(st, ast.Assign) and isinstance(st.value, ast.Call) and dotted(st.value.func) == "self._extract_dst"]
+    ck.need(calls and isinstance(calls[0].targets[0], ast.Name), "IRCFG.dst_trackback: call of _extract_dst not found")
+    out = calls[0].targets[0].id
+    wl = norm(calls[0].value.args[0]) if calls[0].value.args else "?"
+    rebind = [st for st in lp.body if isinstance(st, ast.Assign) and norm(st.targets[0]) == wl and st is not calls[0]]
+    follows = keeps = False
+    detail = "the worklist `%s` is not rebuilt from `%s` in the loop" % (wl, out)
+    if rebind:
+        v = rebind[-1].value
+        comp = v
+        if isinstance(comp, ast.Call) and norm(comp.func) in ("set", "frozenset") and len(comp.args) == 1:
+            comp = comp.args[0]
+        if isinstance(comp, (ast.SetComp, ast.GeneratorExp, ast.ListComp)) and len(comp.generators) == 1 and norm(comp.generators[0].iter) == out \
+                and not comp.generators[0].ifs and isinstance(comp.elt, ast.IfExp):
+            d = norm(comp.generators[0].target)
+            t, a, b = comp.elt.test, comp.elt.body, comp.elt.orelse
+            if norm(t) == "%s in %s" % (d, blk):
+                follows, keeps = norm(a) == "%s[%s]" % (blk, d), norm(b) == d
+            elif norm(t) == "%s not in %s" % (d, blk):
+                follows, keeps = norm(b) == "%s[%s]" % (blk, d), norm(a) == d
+            detail = "next worklist is {%s for %s in %s}" % (norm(comp.elt), d, out)
+        elif isinstance(v, ast.Name):
+            F = v.id
+            inner = [n for n in lp.body if isinstance(n, ast.For) and norm(n.iter) == out]
+            G = None
+            for il in inner:
+                d = norm(il.target)
+                for t in walk_local(ast.Module(body=il.body, type_ignores=[])):
+                    if isinstance(t, ast.If) and norm(t.test) == "%s in %s" % (d, blk):
+                        for c in walk_local(ast.Module(body=t.body, type_ignores=[])):
+                            ae = added_elements(c) if isinstance(c, ast.Call) else None
+                            if ae and ae[0] == F and [norm(x) for x in ae[1]] == ["%s[%s]" % (blk, d)]:
+                                follows = True
+                            if ae and ae[0] != F and [norm(x) for x in ae[1]] == [d]:
+                                G = ae[0]
+                        for c in walk_local(ast.Module(body=t.orelse, type_ignores=[])):
+                            ae = added_elements(c) if isinstance(c, ast.Call) else None
+                            if ae and ae[0] == F and [norm(x) for x in ae[1]] == [d]:
+                                keeps = True
+            for st in lp.body:
+                for c in walk_local(st):
+                    if isinstance(c, ast.Call) and isinstance(c.func, ast.Attribute) and c.func.attr == "update" and norm(c.func.value) == F and c.args and G:
+                        if norm(c.args[0]) in ("%s.difference(%s)" % (out, G), "%s - %s" % (out, G)):
+                            keeps = True
+            detail = "next worklist is `%s`, filled in a loop over `%s`" % (F, out)
+    ck.ob("R3", "IRCFG.dst_trackback:assigned-id-followed", follows, m.where(fn),
+          "an identifier the assignment block assigns must be replaced by its source in the next worklist: %s" % detail)
+    ck.ob("R3", "IRCFG.dst_trackback:unassigned-id-kept", keeps, m.where(fn),
+          "an identifier the assignment block does not assign must stay on the worklist for the earlier blocks: %s" % detail)
